@@ -1,5 +1,6 @@
 use crate::root_runtime_scope::{EvaluatedValue, RuntimeResult};
 use crate::runtime::RTCell;
+use crate::util::lazy_bigint::LazyBigint;
 use crate::xtype::{Bind, XCompoundSpec, XFuncSpec, XType};
 use crate::xvalue::{ManagedXValue, NativeCallable, XFunction};
 use crate::{Declaration, Identifier};
@@ -41,7 +42,7 @@ impl<'a> OverloadSpecialization {
 #[derivative(Debug(bound = ""))]
 pub(crate) enum XStaticExpr<W, R, T> {
     LiteralBool(bool),
-    LiteralInt(i128),
+    LiteralInt(LazyBigint),
     LiteralFloat(f64),
     LiteralString(String),
     Array(Vec<XStaticExpr<W, R, T>>),
@@ -72,7 +73,7 @@ impl<W, R, T> XStaticExpr<W, R, T> {
 #[derivative(Clone(bound = ""), Debug(bound = ""))]
 pub enum XExpr<W, R, T> {
     LiteralBool(bool),
-    LiteralInt(i128),
+    LiteralInt(LazyBigint),
     LiteralFloat(f64),
     LiteralString(String),
     Array(Vec<XExpr<W, R, T>>),
